@@ -48,7 +48,8 @@ def gen_cases(out, explore):
                 fm[name] = jobs
             if rnd.random() < 0.1:
                 fm = {}
-        cases.append(dict(events=flat, bs=bs, fm=fm))
+        fn = sorted(rnd.sample(range(1, nnames + 2), rnd.randint(1, nnames))) if rnd.random() < 0.3 else None
+        cases.append(dict(events=flat, bs=bs, fm=fm, fn=fn))
     return cases
 
 
@@ -62,7 +63,8 @@ def run_impl(case, path):
         fm = {S.s_name(k): {S.s_job(j) for j in v} for k, v in case["fm"].items()}
     try:
         out = []
-        for name, jobs in h.stream_data(fm):
+        fnames = {S.s_name(k) for k in case["fn"]} if case.get("fn") else None
+        for name, jobs in h.stream_data(fm, fnames):
             js = []
             for job in jobs:
                 js.append([(S.un(e.event_id), S.un(e.job_id), S.un_name(e.job_name), S.un(e.parent_event_id) if e.parent_event_id else None,
@@ -81,7 +83,11 @@ def oracle(case, nodes, assoc, streamed):
     """the property, on the streamed result"""
     fm = case["fm"]
 
+    fn = case.get("fn")
+
     def keep(e):
+        if fn and e["name"] not in fn:
+            return False
         if not fm:
             return True
         return e["name"] in fm and e["job"] in fm[e["name"]]
@@ -129,14 +135,15 @@ def cases_v(items) -> str:
     rows = []
     for case, nodes, assoc, streamed in items:
         fm = coq_list([f"({k}%positive, {coq_list([f'{j}%positive' for j in v])})" for k, v in (case["fm"] or {}).items()])
-        rows.append(f"(({fm}, {S.coq_store(nodes, assoc)}), {coq_stream(streamed)})")
+        fn = coq_list([f"{k}%positive" for k in (case.get("fn") or [])])
+        rows.append(f"(({fm}, {fn}, {S.coq_store(nodes, assoc)}), {coq_stream(streamed)})")
     body = ";\n ".join(rows)
     return f"""From Coq Require Import ZArith List Bool. Import ListNotations.
 From V Require Import Store.Rel Store.Stream Store.StreamCheck.
 Open Scope positive_scope.
-Definition cases : list ((list (positive * list positive) * store) * list (positive * list (list oevent))) := [
+Definition cases : list ((list (positive * list positive) * list positive * store) * list (positive * list (list oevent))) := [
  {body}].
-Eval vm_compute in (1%nat, idx (fun c => let '((fm, st), r) := c in stream_eqb (canon_stream (stream fm [] st)) r) cases).
+Eval vm_compute in (1%nat, idx (fun c => let '((fm, fn, st), r) := c in stream_eqb (canon_stream (stream fm fn st)) r) cases).
 """
 
 
@@ -186,7 +193,7 @@ def run(out: common.Outcome, explore: int = 0) -> None:
         "evaluations": len(cases), "distinct_nontrivial": len(keys),
         "rule": "random stores: 1-5 workflow names, 1-12 traces of 1-8 spans, interleaved ingestion, the same trace id under two "
                 "names (25%), inconsistent names inside a trace (15%), dangling parents (10%); batch sizes {1,2,3,7,10^6}; "
-                "half with a name->trace-ids filter (incl. unknown names/ids and the empty dict); non-trivial = >= 3 (name, trace) pairs",
+                "half with a name->trace-ids filter (incl. unknown names/ids and the empty dict), 30% with a filter_job_names set; non-trivial = >= 3 (name, trace) pairs",
         "samples": [{"case": cases[i]} for i in (0, len(cases) - 1)],
         "traces_validated_against_impl": len(items) - len(coq_fail) * shard,
         "model_impl_disagreements": len(dis), "oracle_rejections": len(bad),
